@@ -734,6 +734,8 @@ def rule_label_declass(S, res):
         if e.kind in ("call", "lcall", "mutarg", "mutarg2") and names:
             if _is_sanitizer(names) or any("garble::GarblingKey" in n for n in names):
                 return False
+            if any(n.endswith("from_residual") for n in names):
+                return False   # `?`: only the error part of the value travels on the early-return path
             for n in names:
                 if "BitXor<mpc::data_types::Delta>" in n and "data_types::Label" in n:
                     n_sel[0] += 1
